@@ -68,6 +68,7 @@ type c15Case struct {
 	CancelAt int    `json:"cancel_at"`
 	Buffered bool   `json:"buffered"`
 	Kind     string `json:"kind"` // step, pre-cancelled, deadline, child, never
+	Warm     int    `json:"warm,omitempty"`
 	Src      string `json:"src,omitempty"`
 	Choices  []int  `json:"choices,omitempty"`
 }
@@ -90,7 +91,27 @@ func c15Baseline(prog *parser.Program, input string) c15Base {
 }
 
 // c15CancelAt cancels before instruction number k+1 (k = 0: before the first).
-func c15CancelAt(c *core.Ctx, p c15Prog, prog *parser.Program, base c15Base, k int, buffered bool) {
+// warm > 0: the Interpreter is a reused one whose earlier run completed (1) under
+// another context that is still live and never cancelled, (2) under a context
+// cancelled after that run had ended, (3) through plain Execute.
+func c15CancelAt(c *core.Ctx, p c15Prog, prog *parser.Program, base c15Base, k int, buffered bool, warm int) {
+	it, _ := interp.New(prog)
+	if warm > 0 {
+		wcfg := &interp.Config{Stdin: strings.NewReader(p.Input), Output: &bytes.Buffer{}, Error: &bytes.Buffer{}, Environ: []string{}}
+		switch warm {
+		case 1:
+			wctx, wcancel := context.WithCancel(context.Background())
+			defer wcancel() // stays live for the whole of the observed run
+			it.ExecuteContext(wctx, wcfg)
+		case 2:
+			wctx, wcancel := context.WithCancel(context.Background())
+			it.ExecuteContext(wctx, wcfg)
+			wcancel()
+		case 3:
+			it.Execute(wcfg)
+		}
+		it.ResetVars() // the program's variables legitimately carry over otherwise (C14); this check compares with a first run
+	}
 	// every third point uses a context with a recorded cause: what the call
 	// returns is the context's error (ctx.Err()), not the caller's cause
 	var ctx context.Context
@@ -127,7 +148,6 @@ func c15CancelAt(c *core.Ctx, p c15Prog, prog *parser.Program, base c15Base, k i
 			after++
 		}
 	})
-	it, _ := interp.New(prog)
 	var st int
 	var err error
 	panicked := ""
@@ -142,8 +162,13 @@ func c15CancelAt(c *core.Ctx, p c15Prog, prog *parser.Program, base c15Base, k i
 	vexp.SetStepFn(nil)
 	c.Eval(1)
 	c.Add("transitions", 1)
-	cs := c15Case{Prog: p.Name, CancelAt: k, Buffered: buffered, Kind: "step"}
-	sig := func(s string) string { return s + ":prog=" + p.Name }
+	cs := c15Case{Prog: p.Name, CancelAt: k, Buffered: buffered, Kind: "step", Warm: warm}
+	sig := func(s string) string {
+		if warm > 0 {
+			s += ":reused-interpreter"
+		}
+		return s + ":prog=" + p.Name
+	}
 	if panicked != "" {
 		c.Fail(sig("panic"), cs, panicked)
 		return
@@ -227,7 +252,20 @@ func c15Run(c *core.Ctx) {
 				if !c.Mine() || c.Expired() {
 					continue
 				}
-				c15CancelAt(c, p, prog, base, k, buffered)
+				c15CancelAt(c, p, prog, base, k, buffered, 0)
+			}
+		}
+		// the same on a reused Interpreter (three kinds of earlier run), every 9th point (thorough: 3rd)
+		stride := 9
+		if c.Thorough() {
+			stride = 3
+		}
+		for i, k := range c15Points(base.steps, c.Thorough()) {
+			if i%stride != 0 || !c.Mine() || c.Expired() {
+				continue
+			}
+			for warm := 1; warm <= 3; warm++ {
+				c15CancelAt(c, p, prog, base, k, i%2 == 1, warm)
 			}
 		}
 		// pre-cancelled and already-expired contexts
@@ -625,7 +663,7 @@ func c15Replay(c *core.Ctx, raw json.RawMessage) {
 		for _, p := range c15Progs {
 			if p.Name == cs.Prog {
 				prog := awk.MustParse(p.Src, nil)
-				c15CancelAt(c, p, prog, c15Baseline(prog, p.Input), cs.CancelAt, cs.Buffered)
+				c15CancelAt(c, p, prog, c15Baseline(prog, p.Input), cs.CancelAt, cs.Buffered, cs.Warm)
 			}
 		}
 	case "child":
@@ -660,7 +698,7 @@ func init() {
 	core.Register(&core.Check{
 		ID:    "C15",
 		Level: "model_checking",
-		Rule: "deviation-bounded environment exploration: for 19 programs (tight loop, nested calls, recursion, for-in, main-loop rules, END loop, pending printf output, getline loop, exit after loops, runtime error in BEGIN / function / rule / END / for-in body) the context is cancelled before VM step k for every k<=300 + every 7th k<=3000 + every 61st up to the end (thorough: every k<=3000 + every 7th), with unbuffered and bufio-wrapped output (every third point on a context with a recorded cause), plus pre-cancelled and expired contexts with and without a cause: the error returned is ctx.Err() itself; " +
+		Rule: "deviation-bounded environment exploration: for 19 programs (tight loop, nested calls, recursion, for-in, main-loop rules, END loop, pending printf output, getline loop, exit after loops, runtime error in BEGIN / function / rule / END / for-in body) the context is cancelled before VM step k for every k<=300 + every 7th k<=3000 + every 61st up to the end (thorough: every k<=3000 + every 7th), with unbuffered and bufio-wrapped output (every third point on a context with a recorded cause), plus pre-cancelled and expired contexts with and without a cause: the error returned is ctx.Err() itself; every 9th (thorough 3rd) of these points again on a reused Interpreter whose earlier run completed under another context that is still live / under a context cancelled afterwards / through plain Execute; " +
 			"for 8 programs waiting on child processes (system, cmd|getline, print|cmd+close, inside a function/loop, in END, a killed shell whose descendant keeps the output pipe open) every placement of the cancel among the scheduling points of the virtual process world up to 2 (thorough 3) deviations; 8 record-driven programs (bare regex patterns matching / not matching, negated, expression, range, several rules) on 6000 records delivered one per Read, cancelled before the call or at record 0/1/10/2000: records consumed after the cancellation <= the same allowance; never-cancelled ExecuteContext vs Execute on the C01 misc/builtins/calls/control program space and on 9 programs with child processes in the virtual world; " +
 			"state = one program, transition = one execution; distinct = distinct (program, steps-after-cancel bucket, result)",
 		Assumptions: []string{
